@@ -13,7 +13,7 @@ TECHNIQUE = "Coq proof of panic-freedom of every package decoder (combinator clo
 RULE = ("malformed input after every known token: valid encodings with the total-length / count fields off by one, mutated bytes, truncated and extended bodies, "
         "arbitrary random bytes; params/rows: every variable-length data type with EVERY data length 0..255 through the package reader, mutated length bytes, rows without format; "
         "value level: GoValue for all 256 type codes x lengths 0..255 executed while tabulating (table dt_panics must be empty). Panics are recovered and reported as class -1; "
-        "the result class is compared with the model's. Non-trivial = at least 3 bytes of input; distinct by (token, bytes, context). Channel / packet level: malformed streams (mutated responses, arbitrary bytes, every header field incl. length < 8 and header-only packets) are fed to the real Channel.WritePacket and the packet reader; a panic is recovered and reported as event (7 -1), which the model never produces. Login: Channel.Login against a scripted peer whose key parameter is not a key at all (control characters, white space, PEM armour without content, cut or mutated keys, random bytes), field edits and multi-edits of the encrypted reply script (fn 32: the call must return, class 0/1/2).")
+        "the result class is compared with the model's. Non-trivial = at least 3 bytes of input; distinct by (token, bytes, context). Channel / packet level: malformed streams (mutated responses, arbitrary bytes, every header field incl. length < 8 and header-only packets) are fed to the real Channel.WritePacket and the packet reader; a panic is recovered and reported as event (7 -1), which the model never produces. Login: Channel.Login against a scripted peer whose key parameter is not a key at all (control characters, white space, PEM armour without content, cut or mutated keys, random bytes), field edits and multi-edits of the encrypted reply script (fn 32: the call must return, class 0/1/2). Disorder streams: well-formed packages in an order no server sends (format of one family followed by data packages of the other, data without any format, format last, shuffles), continued after the first error.")
 TRUSTED = ["Coq 8.16.1 kernel + vm_compute", "hand-written decoders in coq/theories/Pkg (tied by correspondence)",
            "tables re-tabulated from the code (Gen/GenPkg.v)", "harness/pk, tds/verif_hooks.go, ocaml/driver.ml, extraction (ExtrOcamlBasic)"]
 ASSUMPTIONS = ["heap usage of the Go runtime is not modelled: the model bounds what a read can return (C10_take_bounded, C15_read: never more than the bytes received)",
